@@ -88,6 +88,9 @@ func cmdVerify(args []string) int {
 			}
 		}
 		for _, o := range res.Obls {
+			if o.Decided == "discharged" && o.Result.Time > 1.5 && !*verbose {
+				fmt.Printf("   slow: %s %.1fs (%s)\n", o.Name, o.Result.Time, o.Result.Solver)
+			}
 			if o.Decided != "discharged" || *verbose {
 				fmt.Printf("   [%s] %s (%s, %s %.2fs) %s  @%s\n", o.Decided, o.Name, o.Result.Status, o.Result.Solver, o.Result.Time, o.Text, o.Pos)
 				if o.Decided != "discharged" {
